@@ -153,12 +153,20 @@ def accRow (t : Tot α) (r : Row α) : Tot α :=
       pot := t.pot.bind fun x => r.c.map fun v => x + v }
   else { crps := crps, reli := t.reli, pot := t.pot }
 
-/-- c_crps.c:169-216 -/
-def finish (m : Nat) (s : Acc α) : Result α :=
+/-- the frequencies `o[0]`, `o[ncol]` cut back to 1 when the rounded weight sum exceeds it
+(`if(o[0]>1.0) o[0] = 1.0; if(o[ncol]>1.0) o[ncol] = 1.0;`) -/
+def clampFreq (s : Acc α) : Acc α :=
+  { s with o0 := if 1 < s.o0 then 1 else s.o0, oN := if 1 < s.oN then 1 else s.oN }
+
+/-- the table loop and the totals on the final state -/
+def finishCore (m : Nat) (s : Acc α) : Result α :=
   let tb := table m s
   let t := tb.foldl accRow ({ crps := 0, reli := some 0, pot := some 0 } : Tot α)
   { crps := t.crps, reli := t.reli, resol := t.pot.map fun p => s.unc - p, unc := s.unc, pot := t.pot,
     table := tb }
+
+/-- everything after the forecast loop: frequency clamp, table, totals -/
+def finish (m : Nat) (s : Acc α) : Result α := finishCore m (clampFreq s)
 
 /-- `c_crps(nval, ncol, use_weights=0, is_sorted=0, obs, sim, …)` on zeroed outputs;
 `obs.length = nval`, `m = ncol`, every row of `ens` has `m ≥ 1` members (else `shape`: the Cython wrapper's
